@@ -71,6 +71,13 @@ def End.processOutgoing (e : End) (now : Nat) : Except Fail (End × List Nat) :=
         if seg.length > 0 then .ok (e2, seg)
         else e2.ackStep now
 
+/-- `BtpInner::timeout` (`Btp::timeout`, polled every 2 s by `Btp::wait_timeout`; when it answers
+`true` the GATT glue ends the session): `Session::is_timed_out(now, conn_idle_timeout_secs)` -
+a segment of ours has been awaiting its acknowledgement (`sent_at` = instant of our last
+transmission or of the last partial acknowledgement; `Instant::MAX` when nothing is outstanding)
+for more than 30 s -/
+def End.timeout (e : End) (now : Nat) : Bool := e.s.isTimedOut now connIdleTimeoutSecs
+
 def End.processIncoming (e : End) (data : List Nat) (now : Nat) : Except Fail End :=
   match e.s.processRx e.gattMtu data now with
   | .error f => .error f
